@@ -145,7 +145,19 @@ func (r *run) maybeYield() {
 	}
 }
 
-func newRun(seed int64) *run {
+// closeDeadlineNever / closeDeadlineExpired: the two close deadlines the harness uses. Cache Close
+// derives its closing context with context.WithTimeout(closeTimeout) right after its c.mu section;
+// "expired" makes that context done from the start, so the deadline "fires" exactly where the
+// schedule lets Close look at it (the knob is injected by overlay: harness/inpkg/ocache).
+const (
+	closeDeadlineNever   = time.Hour
+	closeDeadlineExpired = time.Nanosecond
+)
+
+func newRun(seed int64) *run { return newRunDeadline(seed, closeDeadlineNever) }
+
+func newRunDeadline(seed int64, closeTimeout time.Duration) *run {
+	defer ocache.VerifSetCloseTimeout(ocache.VerifSetCloseTimeout(closeTimeout))
 	r := &run{notes: make(chan note, 64), rng: rand.New(rand.NewSource(seed)),
 		loadOutcomes: []string{"val"}, tryVerdicts: []string{"yes", "no"}}
 	// ttl < 0: every active entry is expired (GC victims = all active entries); gc period 0: no ticker
@@ -245,6 +257,9 @@ type opCtx struct {
 	parkId    string
 	returned  bool
 	late      bool // not started yet (converted recorded run)
+	ctxDone   bool // its context is done (cancelled / expired close deadline)
+	inSelect  bool // released into a blocking wait of the cache without waiting for it to come back
+	noted     bool // a park / return note of this operation has already been taken from the channel
 	res       string
 	rv        int
 	panicMsg  string
@@ -406,6 +421,10 @@ const watchdog = 20 * time.Second
 
 // await waits for the next note of op (its next park or its return).
 func (r *run) await(op *opCtx) (returned bool, hung bool) {
+	if op.noted {
+		op.noted = false
+		return op.returned, false
+	}
 	t := time.NewTimer(watchdog)
 	defer t.Stop()
 	for {
@@ -418,6 +437,7 @@ func (r *run) await(op *opCtx) (returned bool, hung bool) {
 			if n.op == op {
 				return n.returned, false
 			}
+			n.op.noted = true // an operation that blocks for real came back on its own
 		case <-t.C:
 			return false, true
 		}
@@ -437,6 +457,15 @@ func (r *run) finishFree() (stuck []*opCtx) {
 		}
 		if !op.returned {
 			pending++
+			if op.inSelect {
+				// it runs on its own; if it has parked meanwhile its note was either taken already
+				// (noted) or is still in the channel (handled below)
+				if op.noted {
+					op.noted = false
+					op.release <- ""
+				}
+				continue
+			}
 			if op.parkPoint != "" {
 				op.parkPoint = ""
 				op.release <- ""
